@@ -317,6 +317,40 @@ def generate(repo):
             f'def ellipse {PVARS} (a b c s x y : K) : Prop := {M}.ellipse a b c s x y\n'
             f'def vane {PVARS} (absK : K → K) (width x y : K) : Prop := {M}.vane absK width x y'))
 
+    def keystone():
+        fn = get_def(sg, '_composite_keystone_aperture')
+        src = ast.unparse(fn)
+        assert has(src, 'center_radius = center_circle_diameter / 2', 'center_mask = circle(center_radius, center_rr)',
+                   'outer_radius = center_radius', 'arc_per_seg = 360 / nsegments',
+                   'segment_angles = np.arange(nsegments, dtype=float) * arc_per_seg + rotation',
+                   'inner_include = circle(inner_radius, rr)', 'outer_exclude = circle(outer_radius, rr)',
+                   'mask = arc & ang_mask', 'primary_mask[window] |= mask', 'hi = angle + arc_rad', 'lo = angle',
+                   'primary_mask &= ~all_spiders')
+        loop = [s_ for s_ in fn.body if isinstance(s_, ast.For)][0]
+        rad = [s_ for s_ in loop.body if isinstance(s_, ast.Assign) and ast.unparse(s_.targets[0]) in ('inner_radius', 'outer_radius')]
+        assert [ast.unparse(s_.targets[0]) for s_ in rad] == ['inner_radius', 'outer_radius']
+        tr = VTr({'outer_radius': ('outerPrev', 's'), 'gap': ('gap', 's')})
+        inner = tr.expr(rad[0].value)[0]
+        tr = VTr({'inner_radius': ('inner', 's'), 'local_radius': ('width', 's')})
+        outer = tr.expr(rad[1].value)[0]
+        inner_loop = [s_ for s_ in loop.body if isinstance(s_, ast.For)][0]
+        arc = [s_ for s_ in inner_loop.body if isinstance(s_, ast.Assign) and ast.unparse(s_.targets[0]) == 'arc'][0].value
+        assert isinstance(arc, ast.BinOp) and isinstance(arc.op, ast.BitXor)
+        env = {'inner_include': ('(r ≤ rin)', 'p'), 'outer_exclude': ('(r ≤ rout)', 'p')}
+        a, b = env[ast.unparse(arc.left)][0], env[ast.unparse(arc.right)][0]
+        xor = f'(({a} ∧ ¬ {b}) ∨ (¬ {a} ∧ {b}))'
+        ang = [s_ for s_ in inner_loop.body if isinstance(s_, ast.Assign) and ast.unparse(s_.targets[0]) == 'ang_mask'][0].value
+        trp = VTr({'tt': ('t', 's'), 'lo': ('lo', 's'), 'hi': ('hi', 's')})
+        angp = prop(trp, ang)
+        return (f'def keyInner {{K : Type}} [Add K] (outerPrev gap : K) : K := {inner}\n'
+                f'def keyOuter {{K : Type}} [Add K] (inner width : K) : K := {outer}\n'
+                f'def keySector {PVARS} (rin rout lo hi r t : K) : Prop := ({xor} ∧ {angp})')
+    g.item('keystone', 'prysm/segmented.py:_composite_keystone_aperture',
+           lambda: get_def(sg, '_composite_keystone_aperture'), keystone,
+           (f'def keyInner {{K : Type}} [Add K] (outerPrev gap : K) : K := {M}.keyInner outerPrev gap\n'
+            f'def keyOuter {{K : Type}} [Add K] (inner width : K) : K := {M}.keyOuter inner width\n'
+            f'def keySector {PVARS} (rin rout lo hi r t : K) : Prop := {M}.keySector rin rout lo hi r t'))
+
     def rect_branches():
         fn = get_def(ge, 'rectangle')
         src = ast.unparse(fn)
